@@ -288,20 +288,29 @@ def inline_crate(j):
     # CFG normalisation of the functions that received a body: thread jumps over flags / variants the spliced body
     # returns, then split the multi-definition temporaries into def-use webs
     import cfgnorm
-    touched = {x.split(' <- ')[0] for x in stats['sites']}
-    if os.environ.get('CFR_NORM_ALL'):
-        touched = {f['name'] for f in j['fns']}
+    # every function is normalised (a flag or an Option materialised in the function itself — `let ok = a && b;
+    # if ok {..}` — has the same shape as one returned by a spliced helper); CFR_NORM_TOUCHED=1 restricts it to the
+    # functions that received a body.  On the reference tree both settings give the same verdicts.
+    touched = {f['name'] for f in j['fns']}
+    if os.environ.get('CFR_NORM_TOUCHED'):
+        touched = {x.split(' <- ')[0] for x in stats['sites']}
     stats['threaded'] = 0
     stats['webs'] = 0
     for f in j['fns']:
         if f['name'] in touched:
-            stats['lowered'] = stats.get('lowered', 0) + cfgnorm.lower_branch(f)
+            stats['lowered'] = stats.get('lowered', 0) + cfgnorm.lower_branch(f) + cfgnorm.lower_fnptr_calls(f)
             for _ in range(4):
                 n = cfgnorm.thread_jumps(f, j.get('adts') or {})
                 stats['threaded'] += n
                 if not n:
                     break
             stats['webs'] += cfgnorm.split_webs(f)
+            # a switch whose selector has become single-valued after the split is a goto; that cuts off stale copies
+            for _ in range(3):
+                if not cfgnorm.fold_known_switches(f):
+                    break
+                cfgnorm.thread_jumps(f, j.get('adts') or {})
+                stats['webs'] += cfgnorm.split_webs(f)
     return stats
 
 
